@@ -28,7 +28,7 @@ HOW TO RUN THINGS (no network; do not pip install anything):
 
 DELIVERABLES -- create the directory `{wt}/seed/` containing exactly:
   * `patch.diff`  : output of `git -C {wt} diff -- spatialmath` (your change to the library only);
-  * `demo.py`     : a small standalone program (no pytest needed) that exercises the library and exits 0 when the property holds for the inputs it tries and exits 1 (printing what went wrong) when it is violated. It MUST exit 0 on the unmodified HEAD source and exit 1 with your change applied. Run it as `cd {wt} && /venv/bin/python seed/demo.py`. Verify both directions yourself (use `git stash` / `git stash pop`, or `git apply -R seed/patch.diff` then `git apply seed/patch.diff`), and leave the worktree WITH your change applied at the end.
+  * `demo.py`     : a small standalone program (no pytest needed) that exercises the library and exits 0 when the property holds for the inputs it tries and exits 1 (printing what went wrong) when it is violated. It MUST exit 0 on the unmodified HEAD source and exit 1 with your change applied. Run it as `cd {wt} && /venv/bin/python seed/demo.py`. Verify both directions yourself (use `git apply -R seed/patch.diff` then `git apply seed/patch.diff`; do NOT use `git stash`: the stash is shared between worktrees and other agents run concurrently), and leave the worktree WITH your change applied at the end.
   * `meta.json`   : {{"property": "{p['id']}", "summary": "<one sentence: what you changed>", "needs": "<what specific input / sequence / condition is needed for the violation to manifest>", "files": ["spatialmath/..."], "ran": ["<the exact commands you ran to confirm: tests with change, demo with change (exit 1), demo without change (exit 0)>"], "test_result_with_change": "<pytest summary line>"}}
 
 Finish by reporting, in a few lines: the change, why tests do not notice, and the outputs of the three confirmations. Do not write anything else outside `{wt}`.""")
